@@ -52,6 +52,18 @@ theorem C08_invalidate (c : Cache) (hw : CWf c) (foe : Bool) (g : String) (rs : 
     rw [hinv.1.2] at this; cases this
   simp [leaderOf, hnone]
 
+/-- The main path - produce, fetch and offset requests carry NO group: every not-leader /
+    unknown-topic-or-partition answer of the list invalidates its topic's routing, for both values of
+    `fail_on_error` and also behind the first error raised (fix 55f24eb), and the cache stays well formed.
+    (Side condition: no answer carries a coordinator error code - with `consumer_group=None` that makes
+    `reset_consumer_group_metadata(None)` raise `TypeError` at once, and brokers do not answer so.) -/
+theorem C08_invalidate_no_group (c : Cache) (hw : CWf c) (foe : Bool) (rs : List (String × Int))
+    (hg : ∀ r ∈ rs, clientGroupResetErrnos.contains r.2 = false) :
+    invalidateOk (handleResponses c foe none rs).1 none rs = true ∧ CWf (handleResponses c foe none rs).1 ∧
+    (∀ t, topicInvalid c t = true → topicInvalid (handleResponses c foe none rs).1 t = true) := by
+  obtain ⟨h1, h2, h3⟩ := handleResponses_none_spec foe rs c hw hg
+  exact ⟨h3, h2, h1⟩
+
 /-- A failed send (`FailedPayloadsError`) leaves no routing at all (`reset_all_metadata`). -/
 theorem C08_failed_send_invalidates (c : Cache) : allInvalid (resetAll c) = true := by
   simp [allInvalid, resetAll]
@@ -183,6 +195,7 @@ end Afkak.Props.C08
 C08_mirror
 C08_close_missing
 C08_invalidate
+C08_invalidate_no_group
 C08_failed_send_invalidates
 C08_fail_on_error_false_never_raises
 C08_updateMetadata_next_connect
@@ -191,4 +204,5 @@ C08_wf_reachable
 -/
 /- OPEN_STATEMENTS
 C08_invalidated_topic_reloads_before_send
+C08_recovers_within_retry_budget
 -/
